@@ -20,6 +20,8 @@ Ghost file sections (contracts/ghost/<unit>.ghost), all keyed by item label:
                                       and replaced by the call name(args); following lines (up to
                                       the next @@) are the *assumed* contract of the hole
   @@ <label> bodyend <k>              lines inserted at the end of the body of loop k
+  loop anchors: <k> may be written [n|<header line text>] (n-th loop with that header), ?[..] = optional section;
+                                      `it__@` in the body stands for that loop's ordinal
   @@ <label> attr                     lines inserted before the item (e.g. #[verifier::...])
 Every inserted line is tagged with a trailing //@ so the erasure check can remove it again.
 """
@@ -213,6 +215,35 @@ def apply_ghost(text, label, ghost, report):
         for k in range(len(pos0), 0, -1):
             kw_i = pos0[k - 1][0]
             text = text[:kw_i] + "/*@L%d*/" % k + text[kw_i:]
+    # loops may be addressed by header text instead of ordinal:  [n|for row in rows {]  = the n-th loop whose header line
+    # has that text; a leading `?` makes the section optional (dropped when the loop is gone, so that removing a loop does
+    # not turn every later anchor into a lost one).  `it__@` in the section body stands for the loop's ordinal.
+    LOOP_KINDS = ("desugar", "loop", "body", "bodyend", "afterloop", "beforeloop", "loopattr", "exhausted")
+    if any(s_[0] in LOOP_KINDS and s_[1].lstrip("?").startswith("[") for s_ in secs):
+        heads = {}
+        for mm_ in re.finditer(r"/\*@L(\d+)\*/", text):
+            le = text.find("\n", mm_.end())
+            hdr = text[mm_.end():le if le >= 0 else len(text)].strip()
+            heads[int(mm_.group(1))] = hdr
+        resolved = []
+        for kind, arg, body in secs:
+            a_ = arg.lstrip()
+            if kind in LOOP_KINDS and a_.lstrip("?").startswith("["):
+                optional = a_.startswith("?")
+                a_ = a_.lstrip("?")
+                close = a_.index("]")
+                n_, hdr_ = a_[1:close].split("|", 1)
+                ks = [k for k in sorted(heads) if heads[k] == hdr_.strip()]
+                if len(ks) < int(n_):
+                    if optional:
+                        report.setdefault("dropped_optional_sections", []).append("%s %s %s" % (label, kind, arg))
+                        continue
+                    raise Undecided("lost anchor in %s: loop %s" % (label, a_[:close + 1]))
+                k_ = ks[int(n_) - 1]
+                resolved.append((kind, str(k_) + a_[close + 1:], [l.replace("it__@", "it__%d" % k_) for l in body]))
+            else:
+                resolved.append((kind, arg, body))
+        secs = resolved
     # ---------------- phase A
     for kind, arg, body in secs:
         if kind in ("subst", "norm"):
